@@ -15,6 +15,9 @@ void lg_init(void *a, void *buf, int cap)
     gstuff_autorecv_setbuf_v1((struct gstuff_autorecv_v1 *)a, buf, cap);
 }
 
+/* re-use of a receiver object for the next packet with another buffer: no zero-fill, only what the API offers */
+void lg_setbuf(void *a, void *buf, int cap) { gstuff_autorecv_setbuf_v1((struct gstuff_autorecv_v1 *)a, buf, cap); }
+
 /* status normalised to the values of gs::St */
 int lg_newchar(void *a, unsigned char c)
 {
